@@ -307,7 +307,24 @@ def _run_case(item):
     from . import sdkrun
     i, case, prop = item
     run = sdkrun.SdkRun(case["meas"])
-    out = run.run(case["history"])
+    stack_ = None
+    if case.get("other_open"):
+        # another application's connection in the same process (as in a simulation, where every node's host program is a thread)
+        # is in the middle of building nested loops of its own while this one builds and runs its history
+        import contextlib
+        from netqasm.sdk.connection import DebugConnection
+        other = DebugConnection("bob")
+        stack_ = contextlib.ExitStack()
+        for _k in range(case["other_open"]):
+            stack_.enter_context(other.loop(2))
+    try:
+        out = run.run(case["history"])
+    finally:
+        if stack_ is not None:
+            try:
+                stack_.close()
+            except Exception:
+                pass
     out.update(id=i, prop=prop)
     return out
 
